@@ -6,6 +6,7 @@
 //@check reads_are_history_independent serves=C17,C09,C03,C05 fn=E57Reader::{pointcloud_raw,pointcloud_simple,blob,xml} note="BOUNDED: one file with two point clouds (5000 points with sub-byte, 11-bit and 61-bit integer records plus doubles; 33 points) and a 3000-byte blob; 6 interleavings of partly consumed raw / simple iterators, blob reads and full reads; compared with a fresh reader per operation"
 //@check corrupted_pages_never_yield_other_data serves=C07,C08,C17 fn=PagedReader::{read_page,read},E57Reader::{new,validate_crc,pointcloud_raw} note="BOUNDED: the same file with one bit flipped at 5 positions (payload start/middle/end, first and last checksum byte) of EVERY page; E57Reader::new, raw reads of both clouds and validate_crc: validate_crc must fail, every other operation fails or returns exactly the result of the intact file; a failed read followed by a read of another cloud still returns the intact result; no panic"
 //@check unusual_packetisation_decodes serves=C03,C08,C09,C12 fn=QueueReader::{advance,parse_byte_streams,pop_point},ByteStreamReadBuffer::{append,extract},BitPack::unpack_* note="BOUNDED: one cloud of 257 points (f64, f32, 10-bit scaled integer, 0-bit integer, 61-bit integer) encoded by an INDEPENDENT encoder in this test (own bit packer, packets, pages, CRC-32C) in 7 packetisations: one packet; 1 byte per stream per packet; chunks of 3/5/7/11 bytes (values straddle packets); one stream ahead of the others (empty streams in packets); index packet first; ignored packets of 4, 1000 and 2044 bytes in between (straddling pages); all of it behind a 1016-byte ignored packet; raw read-back compared"
+//@check crafted_packets_terminate serves=C09,C08 fn=QueueReader::advance,PointCloudReaderRaw::next,PointCloudReaderSimple::next note="BOUNDED: 4 crafted files with valid page checksums (ignored / index packet whose declared length runs past the end of the file; data packet whose stream sizes exceed the packet; section that ends in the middle of a packet header): every iterator step returns within 20 s (watchdog thread), with an error or the end of the iteration, never a panic"
 //@module
     use crate::{E57Writer, Point, RawValues, Record, RecordDataType, RecordName, RecordValue};
     use std::io::Cursor;
@@ -382,6 +383,64 @@
             assert_eq!(got.len(), N, "number of points, packetisation \"{name}\"");
             for (i, (a, b)) in got.iter().zip(points.iter()).enumerate() {
                 assert!(a == b, "packetisation \"{name}\": point {i} is {a:?}, written {b:?}");
+            }
+        }
+    }
+
+    #[test]
+    fn crafted_packets_terminate() {
+        use std::sync::mpsc;
+        use std::time::Duration;
+        // a small valid file from the library, then its first data packet header is overwritten in the logical stream
+        let mut lib = Cursor::new(Vec::new());
+        {
+            let mut w = E57Writer::new(&mut lib, "guid-file").unwrap();
+            let mut pcw = w.add_pointcloud("guid-pc", vec![Record::CARTESIAN_X_F64, Record::CARTESIAN_Y_F64, Record::CARTESIAN_Z_F64]).unwrap();
+            for i in 0..10 {
+                pcw.add_point(vec![RecordValue::Double(i as f64), RecordValue::Double(1.0), RecordValue::Double(2.0)]).unwrap();
+            }
+            pcw.finalize().unwrap();
+            w.finalize().unwrap();
+        }
+        let lib = lib.into_inner();
+        let mut logical: Vec<u8> = Vec::new();
+        for page in lib.chunks(1024) {
+            logical.extend_from_slice(&page[..1020]);
+        }
+        let first_packet = 48 + 32; // section at logical 48, 32-byte section header
+        assert_eq!(logical[first_packet], 1, "first packet of the library file is a data packet");
+        let crafts: Vec<(&str, Vec<(usize, Vec<u8>)>)> = vec![
+            ("ignored packet longer than the file", vec![(first_packet, vec![2, 0, 0xFF, 0xFF])]),
+            ("index packet longer than the file", vec![(first_packet, { let mut h = vec![0u8; 16]; h[2] = 0xFF; h[3] = 0xFF; h })]),
+            ("stream sizes exceed the packet", vec![(first_packet + 6, vec![0xFF, 0xFF, 0xFF, 0xFF, 0xFF, 0xFF])]),
+            ("packet length field of 4 bytes", vec![(first_packet + 2, vec![3, 0])]),
+        ];
+        for (name, edits) in crafts {
+            let mut s = logical.clone();
+            for (at, bytes) in edits {
+                s[at..at + bytes.len()].copy_from_slice(&bytes);
+            }
+            let file = to_pages(&s);
+            assert!(E57Reader::validate_crc(Cursor::new(file.clone())).is_ok(), "crafted file keeps valid checksums: {name}");
+            for simple in [false, true] {
+                let (tx, rx) = mpsc::channel();
+                let f2 = file.clone();
+                std::thread::spawn(move || {
+                    let res = std::panic::catch_unwind(move || {
+                        let mut r = match E57Reader::new(Cursor::new(f2)) { Ok(r) => r, Err(_) => return 0usize };
+                        let pc = r.pointclouds()[0].clone();
+                        let mut n = 0usize;
+                        if simple {
+                            if let Ok(it) = r.pointcloud_simple(&pc) { for p in it { if p.is_err() { break; } n += 1; if n > 1000 { break; } } }
+                        } else if let Ok(it) = r.pointcloud_raw(&pc) { for p in it { if p.is_err() { break; } n += 1; if n > 1000 { break; } } }
+                        n
+                    });
+                    let _ = tx.send(res.is_ok());
+                });
+                match rx.recv_timeout(Duration::from_secs(20)) {
+                    Ok(no_panic) => assert!(no_panic, "reading the crafted file \"{name}\" panicked (simple iterator: {simple})"),
+                    Err(_) => panic!("reading the crafted file \"{name}\" did not return within 20 s (simple iterator: {simple}): an iterator step does not terminate"),
+                }
             }
         }
     }
